@@ -34,12 +34,31 @@ def quad_stages(ctx, thorough, seed):
     return [("quadrature " + n, "num/Quadrature.tla", "num/Quadrature_gen.cfg", s) for n, s in st]
 
 
+def fd_stages(ctx, thorough, seed):
+    allr = ["Derivative", "Gradient", "Jacobian", "Laplacian", "CrossLaplacian"]
+    base = dict(DLO=1, DHI=4, KS="{2,3,5}" if thorough else "{3,5}", NP=16 if thorough else 8, SEED=seed)
+    st = [("finite differences " + ", ".join(allr), dict(base, ROUTINES=S(*allr)))]
+    # the Hessian is the expensive definition: its own runs, split by dimension
+    st.append(("finite differences Hessian d<=3", dict(base, ROUTINES=S("Hessian"), DHI=3)))
+    st.append(("finite differences Hessian d=4", dict(base, ROUTINES=S("Hessian"), DLO=4)))
+    return [(n, "num/FiniteDiff.tla", "num/FiniteDiff_gen.cfg", s) for n, s in st]
+
+
+def alg_stages(ctx, thorough, seed):
+    st = []
+    for types, nq, nt in ((("dual", "hyper"), 8, 24), (("quat", "dcmplx"), 6, 16), (("dquat",), 2, 8)):
+        st.append(("algebra " + "+".join(types), "num/DualAlgebra.tla", "num/DualAlgebra_gen.cfg",
+                   dict(TYPES=S(*types), NRAND=nt if thorough else nq, SEED=seed)))
+    return st
+
+
 def run(ctx):
     os.makedirs(os.path.join(SPECS, "lib"), exist_ok=True)
     thorough = ctx.tier == "thorough"
     seed = ctx.seed % 1000
     hb = ctx.build("")
-    stages = quad_stages(ctx, thorough, seed)
+    stages = quad_stages(ctx, thorough, seed) + fd_stages(ctx, thorough, seed) + alg_stages(ctx, thorough, seed)
+    stages.sort(key=lambda st: ("Hessian" not in st[0], "dquat" not in st[0], "simpson" not in st[0]))   # longest first
 
     def one(st):
         name, spec, cfg, subst = st
